@@ -76,7 +76,9 @@ class PosCommute(Case):
         self.n, self.chunk = n, chunk
         self.tier = "thorough" if (n >= 3 or (chunk and n >= 2)) else "quick"
         self.name = (f"TranscriptInterval position conversions commute[{n} exons, any start frame"
-                     f"{', on a sequence chunk' if chunk else ''}]")
+                     f"{', on a sequence chunk CUTTING the transcript' if chunk == 'cuts' else ', on a sequence chunk' if chunk else ''}]")
+        if chunk == "cuts":
+            self.shard_depth = 5
         self.call = ("(tx.sequence_pos_to_cds(p), tx.transcript_pos_to_cds(tx.sequence_pos_to_transcript(p)), "
                      "tx.cds_pos_to_sequence(tx.sequence_pos_to_cds(p)), "
                      "tx.transcript_pos_to_sequence(tx.sequence_pos_to_transcript(p)), "
@@ -101,7 +103,11 @@ class PosCommute(Case):
         d = sample_tx(rng, self.n)
         d["p"] = rng.randint(d["tx_starts"][0] - 1, d["tx_ends"][-1] + 1)
         d["frame"] = rng.choice(["ZERO", "ONE", "TWO"])
-        if self.chunk:
+        if self.chunk == "cuts":
+            cs = rng.randint(0, d["tx_ends"][-1] - 1)
+            ce = rng.randint(cs + 1, d["tx_ends"][-1] + 3)
+            d.update(chunk_start=cs, chunk_end=ce, chunk_seq="".join(rng.choice("ACGT") for _ in range(ce - cs)))
+        elif self.chunk:
             cs = rng.randint(0, d["tx_starts"][0])
             ce = d["tx_ends"][-1] + rng.randint(0, 3)
             d.update(chunk_start=cs, chunk_end=ce, chunk_seq="".join(rng.choice("ACGT") for _ in range(ce - cs)))
@@ -140,10 +146,16 @@ class IntervalConversions(Case):
         self.shard_depth = 7 if (n >= 2 and chunk) else 4
         self.name = (f"TranscriptInterval interval conversions = point-wise maps[{n} exons"
                      + (", chunk cutting the transcript" if chunk == "cuts" else "") + "]")
-        self.call = ("(tx.transcript_interval_to_sequence(a, b, Strand.PLUS), "
-                     "tx.sequence_interval_to_transcript(x, y, Strand.PLUS), "
-                     "tx.cds_interval_to_sequence(ca, cb, Strand.PLUS), tx.chromosome_location)")
+        self.call = ("(tx.transcript_interval_to_sequence(a, b, rs), "
+                     "tx.sequence_interval_to_transcript(x, y, rs), "
+                     "tx.cds_interval_to_sequence(ca, cb, rs), tx.chromosome_location)")
         self.ensures = {
+            # the strand argument: an interval on the MINUS strand of the transcript / CDS lies on the opposite
+            # chromosome strand (also when it is the WHOLE transcript / CDS); a chromosome interval on strand rs lies on
+            # the transcript's PLUS strand iff rs is the transcript's own strand
+            "strand-argument-honoured": lambda i, r: And(
+                _strand_is(r[0], i.plus == i.rs_plus), _strand_is(r[2], i.plus == i.rs_plus),
+                _strand_is(r[1], i.plus == i.rs_plus)),
             "transcript-interval-to-sequence-is-the-point-wise-image": lambda i, r: Iff(
                 covers_pos(r[0], i.q), And(in_blocks(i.starts, i.ends, i.q),
                                            i.a <= rel_pos(i, i.starts, i.ends, i.q),
@@ -167,11 +179,13 @@ class IntervalConversions(Case):
         S.assume(And(0 <= i.a, i.a < i.b, i.b <= total_len(i.starts, i.ends)))
         S.assume(And(0 <= i.ca, i.ca < i.cb, i.cb <= total_len(i.cds_s, i.cds_e)))
         S.assume(And(0 <= i.x, i.x < i.y, Or(*[Max(i.x, s) < Min(i.y, e) for s, e in zip(i.starts, i.ends)])))
-        i.Strand = S.cls(STRAND)
+        i.rs = strand_of(S, "rel_strand")
+        i.rs_plus = (i.rs.members[i.rs.idx][0] if hasattr(i.rs, "members") else i.rs.name) == "PLUS"
         return i
 
     def samples(self, rng):
         d = sample_tx(rng, self.n)
+        d["rel_strand"] = rng.choice(["PLUS", "MINUS"])
         L = sum(e - s for s, e in zip(d["tx_starts"], d["tx_ends"]))
         a = rng.randint(0, L - 1)
         d.update(a=a, b=rng.randint(a + 1, L))
@@ -191,6 +205,12 @@ class IntervalConversions(Case):
     def observe(self, r):
         from .c02_single import obs_loc
         return [obs_loc(x)[:3] for x in r]
+
+
+def _strand_is(loc, plus):
+    st = loc.strand
+    name = st.members[st.idx][0] if hasattr(st, "members") else st.name
+    return name == ("PLUS" if plus else "MINUS")
 
 
 class TxOutsideCds(Case):
@@ -371,7 +391,7 @@ class Introns(Case):
         return [obs_loc(r[0])[:2], obs_loc(r[1])[:2]]
 
 
-CASES = [PosCommute(1), PosCommute(2), PosCommute(3), PosCommute(1, True), PosCommute(2, True), TxOutsideCds(2), UtrPartition(1), UtrPartition(2),
+CASES = [PosCommute(1), PosCommute(2), PosCommute(3), PosCommute(1, True), PosCommute(2, True), PosCommute(1, "cuts"), TxOutsideCds(2), UtrPartition(1), UtrPartition(2),
          UtrPartition(3), Introns(2), Introns(3), IntervalConversions(1, "cuts"), IntervalConversions(2, "cuts"),
          IntervalConversions(2, False), UtrFrameshift(-1), UtrFrameshift(1), PosCommuteFrameshift(-1),
          PosCommuteFrameshift(1)]
